@@ -25,7 +25,7 @@ EXPLANATION = (
     "tree form and in let-DAG form, where one printer serves all commands of the script - and read again; the "
     "command names agree and every assertion denotes the same thing (R7).  One script per "
     "command of the command set: re-serialised and read again it is the same command list; commands "
-    "SmtLibCommand.serialize declines with NotImplementedError on the pinned tree are tabled (R3).")
+    "SmtLibCommand.serialize declines with NotImplementedError on the pinned tree are tabled (R3).  One human-readable parser object reads a formula over symbols spelled like keywords, type names and operators, then another formula: the second reading is what a fresh parser gives (R8).")
 NOT_DECIDED = ["formulas and scripts outside the menus", "grouping of n-ary operators in the human-readable grammar "
                "(allowed by the property; the comparison is up to meaning)"]
 
